@@ -170,6 +170,7 @@ struct GInfo { // C15: what the manager has reported about a group
 	int status = 0; // RTR_MGR_CLOSED
 	bool removed = false;
 	bool removing = false; // rtr_mgr_remove_group is at work on it (already unlinked, sockets being stopped one by one)
+	int est_epoch = 0; // counts its transitions to ESTABLISHED
 };
 
 struct GPending { // C15: consequence that must be visible once the reporting socket thread moves on
@@ -179,6 +180,7 @@ struct GPending { // C15: consequence that must be visible once the reporting so
 	int pref;
 	int expect;
 	int expect2 = -1; // kind 2: alternative reading of "still closed" (see group_oracle_on_status)
+	int epoch = 0; // kind 1: which establishment of the group this is the consequence of
 };
 
 struct Win6 { // C06: one full reload of a socket that already holds data
